@@ -16,10 +16,12 @@ smoothness group (`armijo_accepts_small_steps` … `pgdb_projected_gradient_rule
 `QModel/C11.lean` instantiated at `K = ℝ`, `V = E`, `dot = ⟪·,·⟫`, `sqrt = Real.sqrt`; unbounded in dimension, iteration
 count, history window and all thresholds.
 
-Not proved: an explicit finite-stopping bound for the two loss-difference rules and for windows > 1 (`stop_mode_guarantees` says
-what a stop guarantees for any window); `pgdb_long_steps_bounded` / `pgdb_rate` are counting bounds under an explicit
-"all steps / residuals ≥ eps" hypothesis, which `pgdb_projected_gradient_rule_iterations` discharges from the loop for the
-projected-gradient rule with window 1 only; momentum / FISTA optimality (C10 proves feasibility only); anything about SCS.
+Finite stopping with explicit bounds is proved for all four rules with window 1 (`pgdb_loss_rule_iterations`,
+`pgdb_step_size_rule_iterations`, `pgdb_projected_gradient_rule_iterations` — the last one on `L`-smooth losses) and for the two
+loss-difference rules with any window (`pgdb_loss_rule_iterations_window`).  Not proved: iteration bounds for the step-size and
+projected-gradient rules with windows > 1 (`stop_mode_guarantees` says what a stop guarantees for any window); that the coded
+iteration limit (1000) exceeds these bounds — with the default `eps ≈ 10⁻¹⁴` it does not, so a default run may end on the limit;
+momentum / FISTA optimality (C10 proves feasibility only); anything about SCS.
 Known defect mirrored by a negation witness: `pg_descent_dir_fails_via_stacked` (finding D13).
 -/
 set_option linter.unusedSectionVars false
@@ -708,6 +710,288 @@ theorem pgdb_projected_gradient_rule_iterations {P : E → E} {C : Set E} (hC : 
     have : 0 ≤ min 1 ((1 - gamma) * mu / Lc) := le_min zero_le_one (by positivity)
     positivity
   nlinarith
+
+/-- loop invariant: with the step-size rule and window 1, every iteration after which the loop CONTINUED moved by more than `eps` -/
+theorem pgdbLoop_continued_steps {P : E → E} {C : Set E} (hC : Convex ℝ C) (hP : IsProjOn P C) (f : E → ℝ) (g : E → E)
+    {mu gamma : ℝ} (eps : ℝ) (btFuel : Nat) :
+    ∀ (fuel : Nat) (x : E) (errs : List ℝ) (rest : List E) (res : List E × List ℝ), x ∈ C →
+      AllStepsGe eps (x :: rest) →
+      pgdbLoop P f g ip Real.sqrt mu gamma eps .sumAbsDiffVar 1 btFuel fuel x errs (x :: rest) = some res →
+      AllStepsGe eps res.1.tail := by
+  intro fuel
+  induction fuel with
+  | zero =>
+    intro x errs rest res _ hinv h
+    simp only [pgdbLoop, Option.some.injEq] at h
+    subst h
+    cases rest with
+    | nil => simp [AllStepsGe]
+    | cons a t => simp only [AllStepsGe] at hinv; exact hinv.2
+  | succ fuel ih =>
+    intro x errs rest res hx hinv h
+    unfold pgdbLoop at h
+    cases hs : pgdbStep P f g ip Real.sqrt mu gamma .sumAbsDiffVar btFuel x with
+    | none => simp [hs] at h
+    | some it =>
+      obtain ⟨hmem, ha0, _, _, hxn, _⟩ :=
+        pgdb_step_feasible hC P (fun w => (hP w).1) f g ip Real.sqrt mu gamma .sumAbsDiffVar btFuel x hx it hs
+      have herr : it.err = ‖it.xNext - x‖ := by
+        have e : it.err = errorValue .sumAbsDiffVar f Real.sqrt (fun v => ip v v) x (x + it.alpha • it.y) it.y := by
+          unfold pgdbStep at hs
+          cases hb : backtrack f g ip x (pgdbDir P g mu x) gamma btFuel 1 with
+          | none => simp [hb] at hs
+          | some a => simp only [hb, Option.some.injEq] at hs; subst hs; rfl
+        have e2 : it.xNext - x = it.alpha • it.y := by rw [hxn]; abel
+        rw [e, (stop_criteria_meaning f x it.y it.alpha ha0.le).2.2.1, e2, norm_smul, Real.norm_eq_abs, abs_of_pos ha0]
+      simp only [hs] at h
+      by_cases hd : isDoing (errs ++ [it.err]) 1 eps = true
+      · rw [if_pos hd] at h
+        have hgt : eps ≤ ‖it.xNext - x‖ := by
+          have hne : ¬ isDoing (errs ++ [it.err]) 1 eps = false := by simp [hd]
+          have := (not_congr (stop_rule_window_one errs it.err eps)).1 hne
+          rw [herr] at this
+          exact le_of_lt (not_le.1 this)
+        have hinv' : AllStepsGe eps (it.xNext :: x :: rest) := by
+          simp only [AllStepsGe]; exact ⟨hgt, hinv⟩
+        exact ih it.xNext _ _ res hmem hinv' h
+      · rw [if_neg hd] at h
+        injection h with h; subst h
+        exact hinv
+
+/-- C11.pgdb_step_size_rule_iterations: a run under the rule `sum_absolute_difference_variable` (window 1, threshold `eps ≥ 0`)
+performs at most `1 + (f(x₀) − f_low) / (γ μ eps²)` iterations — no smoothness assumption: every iteration but the last moved by
+more than `eps` (otherwise the loop would have stopped) and the squared steps are summable against the loss decrease. -/
+theorem pgdb_step_size_rule_iterations {P : E → E} {C : Set E} (hC : Convex ℝ C) (hP : IsProjOn P C) (f : E → ℝ) (g : E → E)
+    {mu gamma : ℝ} (eps : ℝ) (heps : 0 ≤ eps) (hmu : 0 < mu) (hgam : 0 ≤ gamma) (btFuel maxIter : Nat) {xStart : E}
+    (hs : xStart ∈ C) (x : E) (hist : List E) (errs : List ℝ)
+    (h : pgdbOptimize P f g ip Real.sqrt mu gamma eps .sumAbsDiffVar 1 btFuel maxIter xStart = some (x, hist, errs))
+    {fLow : ℝ} (hlow : fLow ≤ f x) :
+    ((hist.length - 2 : Nat) : ℝ) * (gamma * mu * eps ^ 2) ≤ f xStart - fLow := by
+  have h1 := pgdb_steps_summable hC hP f g Real.sqrt eps hmu hgam .sumAbsDiffVar 1 btFuel maxIter hs x hist errs h
+  have htail : AllStepsGe eps hist.tail := by
+    unfold pgdbOptimize at h
+    cases hl : pgdbLoop P f g ip Real.sqrt mu gamma eps .sumAbsDiffVar 1 btFuel maxIter xStart [] [xStart] with
+    | none => simp [hl] at h
+    | some res =>
+      have := pgdbLoop_continued_steps hC hP f g eps btFuel maxIter xStart [] [] res hs (by simp [AllStepsGe]) hl
+      obtain ⟨l, es⟩ := res
+      cases l with
+      | nil => simp [hl] at h
+      | cons v vs =>
+        simp only [hl] at h
+        by_cases hm : maxIter = 0
+        · simp [hm] at h
+        · simp only [hm, if_false, Option.some.injEq, Prod.mk.injEq] at h
+          obtain ⟨_, rfl, _⟩ := h
+          exact this
+  have h2 := count_le_sumSq heps hist.tail htail
+  have h3 : sumSqSteps hist.tail ≤ sumSqSteps hist := by
+    cases hist with
+    | nil => simp [sumSqSteps]
+    | cons b t =>
+      cases t with
+      | nil => simp [sumSqSteps]
+      | cons a t' =>
+        simp only [List.tail_cons, sumSqSteps]
+        have : 0 ≤ ‖b - a‖ ^ 2 := by positivity
+        linarith
+  have hlen : (hist.tail.length - 1 : Nat) = hist.length - 2 := by simp; omega
+  rw [hlen] at h2
+  have hc : 0 ≤ gamma * mu := mul_nonneg hgam hmu.le
+  nlinarith
+
+/-- loop invariant for the two loss-difference rules (window 1): each iteration after which the loop continued decreased the loss
+by more than `eps` -/
+theorem pgdbLoop_continued_decrease {P : E → E} {C : Set E} (hC : Convex ℝ C) (hP : IsProjOn P C) (f : E → ℝ) (g : E → E)
+    {mu gamma : ℝ} (hmu : 0 < mu) (hgam : 0 ≤ gamma) (eps : ℝ) (heps : 0 ≤ eps) (mode : StopMode)
+    (hmode : mode = .singleDiffLoss ∨ mode = .sumAbsDiffLoss) (btFuel : Nat) (F0 : ℝ) :
+    ∀ (fuel : Nat) (x : E) (errs : List ℝ) (rest : List E) (res : List E × List ℝ), x ∈ C →
+      (rest.length : ℝ) * eps + f x ≤ F0 →
+      pgdbLoop P f g ip Real.sqrt mu gamma eps mode 1 btFuel fuel x errs (x :: rest) = some res →
+      ∃ v vs, res.1 = v :: vs ∧ ((vs.length - 1 : Nat) : ℝ) * eps + f v ≤ F0 := by
+  intro fuel
+  induction fuel with
+  | zero =>
+    intro x errs rest res _ hinv h
+    simp only [pgdbLoop, Option.some.injEq] at h
+    subst h
+    refine ⟨x, rest, rfl, ?_⟩
+    have : ((rest.length - 1 : Nat) : ℝ) ≤ (rest.length : ℝ) := by exact_mod_cast Nat.sub_le _ _
+    nlinarith
+  | succ fuel ih =>
+    intro x errs rest res hx hinv h
+    unfold pgdbLoop at h
+    cases hs : pgdbStep P f g ip Real.sqrt mu gamma mode btFuel x with
+    | none => simp [hs] at h
+    | some it =>
+      obtain ⟨hmem, ha0, _, _, hxn, _⟩ :=
+        pgdb_step_feasible hC P (fun w => (hP w).1) f g ip Real.sqrt mu gamma mode btFuel x hx it hs
+      obtain ⟨_, hle, _⟩ := pgdb_step_decrease hC hP f g Real.sqrt hmu hgam mode btFuel hx it hs
+      have herr : it.err = f x - f it.xNext := by
+        have e : it.err = errorValue mode f Real.sqrt (fun v => ip v v) x (x + it.alpha • it.y) it.y := by
+          unfold pgdbStep at hs
+          cases hb : backtrack f g ip x (pgdbDir P g mu x) gamma btFuel 1 with
+          | none => simp [hb] at hs
+          | some a => simp only [hb, Option.some.injEq] at hs; subst hs; rfl
+        obtain ⟨m1, m2, _, _⟩ := stop_criteria_meaning f x it.y it.alpha ha0.le
+        rcases hmode with rfl | rfl
+        · rw [e, m1, ← hxn]
+        · rw [e, m2, ← hxn, abs_of_nonneg (by linarith)]
+      simp only [hs] at h
+      by_cases hd : isDoing (errs ++ [it.err]) 1 eps = true
+      · rw [if_pos hd] at h
+        have hgt : eps < f x - f it.xNext := by
+          have hne : ¬ isDoing (errs ++ [it.err]) 1 eps = false := by simp [hd]
+          have := (not_congr (stop_rule_window_one errs it.err eps)).1 hne
+          rw [herr] at this
+          exact not_le.1 this
+        have hinv' : (((x :: rest).length : Nat) : ℝ) * eps + f it.xNext ≤ F0 := by
+          simp only [List.length_cons]; push_cast; nlinarith
+        exact ih it.xNext _ _ res hmem hinv' h
+      · rw [if_neg hd] at h
+        injection h with h; subst h
+        refine ⟨it.xNext, x :: rest, rfl, ?_⟩
+        simp only [List.length_cons, Nat.add_sub_cancel]
+        linarith
+
+/-- C11.pgdb_loss_rule_iterations: a run under `single_difference_loss` (the default) or `sum_absolute_difference_loss` with window 1
+and threshold `eps ≥ 0` performs at most `1 + (f(x₀) − f_low) / eps` iterations (for `eps > 0`): every iteration but the last
+decreased the loss by more than `eps`.  With the default `eps ≈ 10⁻¹⁴` this bound is astronomically larger than the coded
+iteration limit 1000 — the rule is met in finitely many steps, but the limit may well be reached first. -/
+theorem pgdb_loss_rule_iterations {P : E → E} {C : Set E} (hC : Convex ℝ C) (hP : IsProjOn P C) (f : E → ℝ) (g : E → E)
+    {mu gamma : ℝ} (eps : ℝ) (heps : 0 ≤ eps) (hmu : 0 < mu) (hgam : 0 ≤ gamma) (mode : StopMode)
+    (hmode : mode = .singleDiffLoss ∨ mode = .sumAbsDiffLoss) (btFuel maxIter : Nat) {xStart : E}
+    (hs : xStart ∈ C) (x : E) (hist : List E) (errs : List ℝ)
+    (h : pgdbOptimize P f g ip Real.sqrt mu gamma eps mode 1 btFuel maxIter xStart = some (x, hist, errs))
+    {fLow : ℝ} (hlow : fLow ≤ f x) :
+    ((hist.length - 2 : Nat) : ℝ) * eps ≤ f xStart - fLow := by
+  unfold pgdbOptimize at h
+  cases hl : pgdbLoop P f g ip Real.sqrt mu gamma eps mode 1 btFuel maxIter xStart [] [xStart] with
+  | none => simp [hl] at h
+  | some res =>
+    obtain ⟨v, vs, hres, hinv⟩ := pgdbLoop_continued_decrease hC hP f g hmu hgam eps heps mode hmode btFuel (f xStart) maxIter
+      xStart [] [] res hs (by simp) hl
+    obtain ⟨l, es⟩ := res
+    simp only at hres
+    subst hres
+    simp only [hl] at h
+    by_cases hm : maxIter = 0
+    · simp [hm] at h
+    · simp only [hm, if_false, Option.some.injEq, Prod.mk.injEq] at h
+      obtain ⟨rfl, rfl, _⟩ := h
+      have : (v :: vs).length - 2 = vs.length - 1 := by simp
+      rw [this]
+      linarith
+
+/-- loop invariant for the two loss-difference rules with ANY window `n = m + 1`: the potential
+`(#continued)·eps + n·f(x) + pot m (errors, most recent first)` never exceeds `n·F0` — each iteration lowers
+`n·f + pot` by exactly the window sum, which exceeds `eps` whenever the loop continues -/
+theorem pgdbLoop_window_potential {P : E → E} {C : Set E} (hC : Convex ℝ C) (hP : IsProjOn P C) (f : E → ℝ) (g : E → E)
+    {mu gamma : ℝ} (hmu : 0 < mu) (hgam : 0 ≤ gamma) (eps : ℝ) (heps : 0 ≤ eps) (mode : StopMode)
+    (hmode : mode = .singleDiffLoss ∨ mode = .sumAbsDiffLoss) (m btFuel : Nat) (F0 : ℝ) :
+    ∀ (fuel : Nat) (x : E) (errs : List ℝ) (rest : List E) (res : List E × List ℝ), x ∈ C → (∀ v ∈ errs, 0 ≤ v) →
+      (rest.length : ℝ) * eps + ((m : ℝ) + 1) * f x + pot m errs.reverse ≤ ((m : ℝ) + 1) * F0 →
+      pgdbLoop P f g ip Real.sqrt mu gamma eps mode (m + 1) btFuel fuel x errs (x :: rest) = some res →
+      ∃ v vs, res.1 = v :: vs ∧ ((vs.length - 1 : Nat) : ℝ) * eps + ((m : ℝ) + 1) * f v ≤ ((m : ℝ) + 1) * F0 := by
+  intro fuel
+  induction fuel with
+  | zero =>
+    intro x errs rest res _ hpos hinv h
+    simp only [pgdbLoop, Option.some.injEq] at h
+    subst h
+    refine ⟨x, rest, rfl, ?_⟩
+    have h1 : ((rest.length - 1 : Nat) : ℝ) ≤ (rest.length : ℝ) := by exact_mod_cast Nat.sub_le _ _
+    have h2 := pot_nonneg m errs.reverse (fun v hv => hpos v (List.mem_reverse.1 hv))
+    nlinarith
+  | succ fuel ih =>
+    intro x errs rest res hx hpos hinv h
+    unfold pgdbLoop at h
+    cases hs : pgdbStep P f g ip Real.sqrt mu gamma mode btFuel x with
+    | none => simp [hs] at h
+    | some it =>
+      obtain ⟨hmem, ha0, _, _, hxn, _⟩ :=
+        pgdb_step_feasible hC P (fun w => (hP w).1) f g ip Real.sqrt mu gamma mode btFuel x hx it hs
+      obtain ⟨_, hle, _⟩ := pgdb_step_decrease hC hP f g Real.sqrt hmu hgam mode btFuel hx it hs
+      have herr : it.err = f x - f it.xNext := by
+        have e : it.err = errorValue mode f Real.sqrt (fun v => ip v v) x (x + it.alpha • it.y) it.y := by
+          unfold pgdbStep at hs
+          cases hb : backtrack f g ip x (pgdbDir P g mu x) gamma btFuel 1 with
+          | none => simp [hb] at hs
+          | some a => simp only [hb, Option.some.injEq] at hs; subst hs; rfl
+        obtain ⟨m1, m2, _, _⟩ := stop_criteria_meaning f x it.y it.alpha ha0.le
+        rcases hmode with rfl | rfl
+        · rw [e, m1, ← hxn]
+        · rw [e, m2, ← hxn, abs_of_nonneg (by linarith)]
+      have he0 : 0 ≤ it.err := by rw [herr]; linarith
+      have hpos' : ∀ v ∈ errs ++ [it.err], 0 ≤ v := by
+        intro v hv
+        rcases List.mem_append.1 hv with hv | hv
+        · exact hpos v hv
+        · simp at hv; rw [hv]; exact he0
+      -- the potential drops by the window sum
+      have hW : windowSum (errs ++ [it.err]) (m + 1) = lsum ((it.err :: errs.reverse).take (m + 1)) := by
+        rw [windowSum_eq_take_reverse]; simp
+      have hstep := pot_step m it.err errs.reverse
+      have hWnn : 0 ≤ windowSum (errs ++ [it.err]) (m + 1) :=
+        le_trans he0 (last_le_windowSum errs it.err (m + 1) (Nat.succ_pos m) hpos)
+      have hdrop : ((m : ℝ) + 1) * f it.xNext + pot m (it.err :: errs.reverse)
+          = ((m : ℝ) + 1) * f x + pot m errs.reverse - windowSum (errs ++ [it.err]) (m + 1) := by
+        rw [hW]
+        have : f it.xNext = f x - it.err := by rw [herr]; ring
+        rw [this]; linarith
+      simp only [hs] at h
+      by_cases hd : isDoing (errs ++ [it.err]) (m + 1) eps = true
+      · rw [if_pos hd] at h
+        have hgt : eps < windowSum (errs ++ [it.err]) (m + 1) := by
+          unfold isDoing at hd; simpa using hd
+        have hinv' : (((x :: rest).length : Nat) : ℝ) * eps + ((m : ℝ) + 1) * f it.xNext + pot m (errs ++ [it.err]).reverse
+            ≤ ((m : ℝ) + 1) * F0 := by
+          have : (errs ++ [it.err]).reverse = it.err :: errs.reverse := by simp
+          rw [this]
+          simp only [List.length_cons]; push_cast
+          nlinarith
+        exact ih it.xNext _ _ res hmem hpos' hinv' h
+      · rw [if_neg hd] at h
+        injection h with h; subst h
+        refine ⟨it.xNext, x :: rest, rfl, ?_⟩
+        simp only [List.length_cons, Nat.add_sub_cancel]
+        have h2 := pot_nonneg m (it.err :: errs.reverse) (by
+          intro v hv
+          rcases List.mem_cons.1 hv with rfl | hv
+          · exact he0
+          · exact hpos v (List.mem_reverse.1 hv))
+        nlinarith
+
+/-- C11.pgdb_loss_rule_iterations_window: for ANY window `num_history = n ≥ 1`, a run under `single_difference_loss` or
+`sum_absolute_difference_loss` with threshold `eps ≥ 0` satisfies `(iterations − 1)·eps ≤ n·(f(x₀) − f_low)`: it performs at most
+`1 + n (f(x₀) − f_low)/eps` iterations. -/
+theorem pgdb_loss_rule_iterations_window {P : E → E} {C : Set E} (hC : Convex ℝ C) (hP : IsProjOn P C) (f : E → ℝ) (g : E → E)
+    {mu gamma : ℝ} (eps : ℝ) (heps : 0 ≤ eps) (hmu : 0 < mu) (hgam : 0 ≤ gamma) (mode : StopMode)
+    (hmode : mode = .singleDiffLoss ∨ mode = .sumAbsDiffLoss) (numHist : Nat) (hn : 1 ≤ numHist) (btFuel maxIter : Nat)
+    {xStart : E} (hs : xStart ∈ C) (x : E) (hist : List E) (errs : List ℝ)
+    (h : pgdbOptimize P f g ip Real.sqrt mu gamma eps mode numHist btFuel maxIter xStart = some (x, hist, errs))
+    {fLow : ℝ} (hlow : fLow ≤ f x) :
+    ((hist.length - 2 : Nat) : ℝ) * eps ≤ (numHist : ℝ) * (f xStart - fLow) := by
+  obtain ⟨m, rfl⟩ : ∃ m, numHist = m + 1 := ⟨numHist - 1, by omega⟩
+  unfold pgdbOptimize at h
+  cases hl : pgdbLoop P f g ip Real.sqrt mu gamma eps mode (m + 1) btFuel maxIter xStart [] [xStart] with
+  | none => simp [hl] at h
+  | some res =>
+    obtain ⟨v, vs, hres, hinv⟩ := pgdbLoop_window_potential hC hP f g hmu hgam eps heps mode hmode m btFuel (f xStart) maxIter
+      xStart [] [] res hs (by simp) (by cases m <;> simp [pot]) hl
+    obtain ⟨l, es⟩ := res
+    simp only at hres
+    subst hres
+    simp only [hl] at h
+    by_cases hm : maxIter = 0
+    · simp [hm] at h
+    · simp only [hm, if_false, Option.some.injEq, Prod.mk.injEq] at h
+      obtain ⟨rfl, rfl, _⟩ := h
+      have : (v :: vs).length - 2 = vs.length - 1 := by simp
+      rw [this]
+      push_cast
+      have hm0 : (0 : ℝ) ≤ (m : ℝ) + 1 := by positivity
+      nlinarith
 
 example : sumSqResiduals (fun z : ℝ => max z 0) (fun u => 2 * u) 1 ([0, 1] : List ℝ) = 1 := by
   simp [sumSqResiduals, pgdbDir]
